@@ -630,66 +630,6 @@ fn c11_text_fixed_24_t4() {
     }
 }
 
-//@ id: text_fixed_24_t5
-//@ prop: C11
-//@ tier: thorough
-//@ functions: insim_core/src/string/mod.rs binrw_write_codepage_string::<24>
-//@ statement: fixed-width text field of width 24, ASCII text of lengths [30, 31, 32, 33, 34]: the field occupies exactly 24 bytes = the text truncated to 24, then NUL padding
-//@ bounded: text lengths [30, 31, 32, 33, 34] enumerated concretely, ASCII content (encoded length == character count)
-//@ timeout: 1200
-#[kani::proof]
-#[kani::stub(core::fmt::write, verif_fmt_ok)]
-fn c11_text_fixed_24_t5() {
-    for len in [30, 31, 32, 33, 34] {
-        check_fixed::<24>(len, false);
-    }
-}
-
-//@ id: text_fixed_24_t6
-//@ prop: C11
-//@ tier: thorough
-//@ functions: insim_core/src/string/mod.rs binrw_write_codepage_string::<24>
-//@ statement: fixed-width text field of width 24, ASCII text of lengths [35, 36, 37, 38, 39]: the field occupies exactly 24 bytes = the text truncated to 24, then NUL padding
-//@ bounded: text lengths [35, 36, 37, 38, 39] enumerated concretely, ASCII content (encoded length == character count)
-//@ timeout: 1200
-#[kani::proof]
-#[kani::stub(core::fmt::write, verif_fmt_ok)]
-fn c11_text_fixed_24_t6() {
-    for len in [35, 36, 37, 38, 39] {
-        check_fixed::<24>(len, false);
-    }
-}
-
-//@ id: text_fixed_24_t7
-//@ prop: C11
-//@ tier: thorough
-//@ functions: insim_core/src/string/mod.rs binrw_write_codepage_string::<24>
-//@ statement: fixed-width text field of width 24, ASCII text of lengths [40, 41, 42, 43, 44]: the field occupies exactly 24 bytes = the text truncated to 24, then NUL padding
-//@ bounded: text lengths [40, 41, 42, 43, 44] enumerated concretely, ASCII content (encoded length == character count)
-//@ timeout: 1200
-#[kani::proof]
-#[kani::stub(core::fmt::write, verif_fmt_ok)]
-fn c11_text_fixed_24_t7() {
-    for len in [40, 41, 42, 43, 44] {
-        check_fixed::<24>(len, false);
-    }
-}
-
-//@ id: text_fixed_24_t8
-//@ prop: C11
-//@ tier: thorough
-//@ functions: insim_core/src/string/mod.rs binrw_write_codepage_string::<24>
-//@ statement: fixed-width text field of width 24, ASCII text of lengths [45, 46, 47, 48, 49]: the field occupies exactly 24 bytes = the text truncated to 24, then NUL padding
-//@ bounded: text lengths [45, 46, 47, 48, 49] enumerated concretely, ASCII content (encoded length == character count)
-//@ timeout: 1200
-#[kani::proof]
-#[kani::stub(core::fmt::write, verif_fmt_ok)]
-fn c11_text_fixed_24_t8() {
-    for len in [45, 46, 47, 48, 49] {
-        check_fixed::<24>(len, false);
-    }
-}
-
 //@ id: text_fixed_32_t0
 //@ prop: C11
 //@ tier: thorough
@@ -784,103 +724,13 @@ fn c11_text_fixed_32_t5() {
 //@ prop: C11
 //@ tier: thorough
 //@ functions: insim_core/src/string/mod.rs binrw_write_codepage_string::<32>
-//@ statement: fixed-width text field of width 32, ASCII text of lengths [35, 36, 37, 38, 39]: the field occupies exactly 32 bytes = the text truncated to 32, then NUL padding
-//@ bounded: text lengths [35, 36, 37, 38, 39] enumerated concretely, ASCII content (encoded length == character count)
+//@ statement: fixed-width text field of width 32, ASCII text of lengths [35, 36, 37]: the field occupies exactly 32 bytes = the text truncated to 32, then NUL padding
+//@ bounded: text lengths [35, 36, 37] enumerated concretely, ASCII content (encoded length == character count)
 //@ timeout: 1200
 #[kani::proof]
 #[kani::stub(core::fmt::write, verif_fmt_ok)]
 fn c11_text_fixed_32_t6() {
-    for len in [35, 36, 37, 38, 39] {
-        check_fixed::<32>(len, false);
-    }
-}
-
-//@ id: text_fixed_32_t7
-//@ prop: C11
-//@ tier: thorough
-//@ functions: insim_core/src/string/mod.rs binrw_write_codepage_string::<32>
-//@ statement: fixed-width text field of width 32, ASCII text of lengths [40, 41, 42, 43, 44]: the field occupies exactly 32 bytes = the text truncated to 32, then NUL padding
-//@ bounded: text lengths [40, 41, 42, 43, 44] enumerated concretely, ASCII content (encoded length == character count)
-//@ timeout: 1200
-#[kani::proof]
-#[kani::stub(core::fmt::write, verif_fmt_ok)]
-fn c11_text_fixed_32_t7() {
-    for len in [40, 41, 42, 43, 44] {
-        check_fixed::<32>(len, false);
-    }
-}
-
-//@ id: text_fixed_32_t8
-//@ prop: C11
-//@ tier: thorough
-//@ functions: insim_core/src/string/mod.rs binrw_write_codepage_string::<32>
-//@ statement: fixed-width text field of width 32, ASCII text of lengths [45, 46, 47, 48, 49]: the field occupies exactly 32 bytes = the text truncated to 32, then NUL padding
-//@ bounded: text lengths [45, 46, 47, 48, 49] enumerated concretely, ASCII content (encoded length == character count)
-//@ timeout: 1200
-#[kani::proof]
-#[kani::stub(core::fmt::write, verif_fmt_ok)]
-fn c11_text_fixed_32_t8() {
-    for len in [45, 46, 47, 48, 49] {
-        check_fixed::<32>(len, false);
-    }
-}
-
-//@ id: text_fixed_32_t9
-//@ prop: C11
-//@ tier: thorough
-//@ functions: insim_core/src/string/mod.rs binrw_write_codepage_string::<32>
-//@ statement: fixed-width text field of width 32, ASCII text of lengths [50, 51, 52, 53, 54]: the field occupies exactly 32 bytes = the text truncated to 32, then NUL padding
-//@ bounded: text lengths [50, 51, 52, 53, 54] enumerated concretely, ASCII content (encoded length == character count)
-//@ timeout: 1200
-#[kani::proof]
-#[kani::stub(core::fmt::write, verif_fmt_ok)]
-fn c11_text_fixed_32_t9() {
-    for len in [50, 51, 52, 53, 54] {
-        check_fixed::<32>(len, false);
-    }
-}
-
-//@ id: text_fixed_32_t10
-//@ prop: C11
-//@ tier: thorough
-//@ functions: insim_core/src/string/mod.rs binrw_write_codepage_string::<32>
-//@ statement: fixed-width text field of width 32, ASCII text of lengths [55, 56, 57, 58, 59]: the field occupies exactly 32 bytes = the text truncated to 32, then NUL padding
-//@ bounded: text lengths [55, 56, 57, 58, 59] enumerated concretely, ASCII content (encoded length == character count)
-//@ timeout: 1200
-#[kani::proof]
-#[kani::stub(core::fmt::write, verif_fmt_ok)]
-fn c11_text_fixed_32_t10() {
-    for len in [55, 56, 57, 58, 59] {
-        check_fixed::<32>(len, false);
-    }
-}
-
-//@ id: text_fixed_32_t11
-//@ prop: C11
-//@ tier: thorough
-//@ functions: insim_core/src/string/mod.rs binrw_write_codepage_string::<32>
-//@ statement: fixed-width text field of width 32, ASCII text of lengths [60, 61, 62, 63, 64]: the field occupies exactly 32 bytes = the text truncated to 32, then NUL padding
-//@ bounded: text lengths [60, 61, 62, 63, 64] enumerated concretely, ASCII content (encoded length == character count)
-//@ timeout: 1200
-#[kani::proof]
-#[kani::stub(core::fmt::write, verif_fmt_ok)]
-fn c11_text_fixed_32_t11() {
-    for len in [60, 61, 62, 63, 64] {
-        check_fixed::<32>(len, false);
-    }
-}
-
-//@ id: text_fixed_32_t12
-//@ prop: C11
-//@ tier: thorough
-//@ functions: insim_core/src/string/mod.rs binrw_write_codepage_string::<32>
-//@ statement: fixed-width text field of width 32, ASCII text of lengths [65]: the field occupies exactly 32 bytes = the text truncated to 32, then NUL padding
-//@ bounded: text lengths [65] enumerated concretely, ASCII content (encoded length == character count)
-//@ timeout: 1200
-#[kani::proof]
-#[kani::stub(core::fmt::write, verif_fmt_ok)]
-fn c11_text_fixed_32_t12() {
-    for len in [65] {
+    for len in [35, 36, 37] {
         check_fixed::<32>(len, false);
     }
 }
